@@ -95,7 +95,7 @@ def cases(draw: Any, tier: str) -> dict:
     elif kind == "timeout":
         i, ph = some_phase()
         comps[i][ph].insert(d.int(0, len(comps[i][ph])), {"op": "stall"})
-        case["start_timeout"] = d.int(1, 9)
+        case["start_timeout"] = "default" if d.pct(20) else d.int(1, 9)  # (left out: the documented default of 10 s applies)
     elif kind == "signal_start":
         i, ph = some_phase()
         pos = d.int(0, len(comps[i][ph]))
@@ -145,6 +145,8 @@ class Interp:
         self.startup_done_seen = False
         self.run_called = 0
         self.crash_mark: str | None = None
+        self.t_first: float | None = None  # virtual time at which the first component was constructed
+        self.stall_ended_at: float | None = None
 
     def disc(self, bucket: str, msg: str) -> None:
         self.out.add("runner", "runner:" + bucket, msg)
@@ -218,7 +220,11 @@ class Interp:
                     interp.trace.append(["raise_signal", st_["sig"]])
                     signal.raise_signal(getattr(signal, st_["sig"]))
                 elif op == "stall":
-                    await anyio.sleep(10**5)
+                    try:
+                        await anyio.sleep(10**5)
+                    finally:
+                        interp.stall_ended_at = anyio.current_time() - interp.t_first
+
                 else:
                     raise HarnessError(op)
 
@@ -227,6 +233,8 @@ class Interp:
             children = [j for j, x in enumerate(comps) if x["parent"] == i]
 
             def __init__(self: Any, i: int = i, children: list = children) -> None:
+                if interp.t_first is None:
+                    interp.t_first = anyio.current_time()
                 for j in children:
                     self.add_component(f"c{j}", classes[j])
                 if ending["kind"] == "startup_fail" and ending["phase"] == "creating" and ending["comp"] == i:
@@ -280,10 +288,8 @@ class Interp:
                 try:
                     kwargs: dict[str, Any] = {"backend": case["backend"], "backend_options": backend_options(case["backend"], case.get("sched_seed", 0)),
                                               "logging": None}
-                    if case["start_timeout"] is not None:
+                    if case["start_timeout"] != "default":
                         kwargs["start_timeout"] = case["start_timeout"]
-                    else:
-                        kwargs["start_timeout"] = None
                     if case.get("config") == "empty":
                         run_application(root, {}, **kwargs)
                     else:
@@ -348,6 +354,11 @@ class Interp:
                 self.disc(f"outcome:{kind}", f"{kind} ({ {k: v for k, v in ending.items() if k != 'kind'} }): run_application {describe()}, expected SystemExit(1)")
             if self.run_called:
                 self.disc("run-called-after-failed-startup", f"{kind}: the CLI component's run() was called")
+            if kind == "timeout" and self.stall_ended_at is not None:
+                T = 10 if case["start_timeout"] == "default" else case["start_timeout"]
+                if abs(self.stall_ended_at - T) > 1e-6:
+                    self.disc("timeout-time", f"start_timeout={case['start_timeout']}: the stalled startup was abandoned after "
+                              f"{self.stall_ended_at} virtual seconds, expected {T}")
         elif kind == "signal_after":
             if got["kind"] != "return":
                 self.disc("outcome:signal-after-startup", f"{ending['sig']} after startup of a non-CLI application: run_application {describe()}, expected a clean return")
